@@ -149,7 +149,7 @@ func (s *Solver) define(t *Term, sb *strings.Builder) {
 		if n.Op == OpVar {
 			if !s.declared[n.Name] {
 				s.declared[n.Name] = true
-				fmt.Fprintf(sb, "(declare-const %s %s)\n", smtName(n.Name), n.Sort())
+				fmt.Fprintf(sb, "(declare-const %s %s)\n", n.Ref(), n.Sort())
 			}
 			s.defined[n.ID] = true
 			stack = stack[:len(stack)-1]
